@@ -480,7 +480,9 @@ int kalign_arr_to_msa(char** input_sequences, int* len, int numseq,struct msa** 
 
                 }
                 for(int j = 0; j < len[i];j++){
-                        msa->letter_freq[(int)input_sequences[i][j]]++;
+                        if(input_sequences[i][j] >= 0){
+                                msa->letter_freq[(int)input_sequences[i][j]]++;
+                        }
                         seq->seq[j] = input_sequences[i][j];
                 }
                 seq->seq[len[i]] = 0;
